@@ -129,6 +129,7 @@ func (w *World) verifyFunc(fn *ssa.Function, ct *Contract, mode Mode) (res *Func
 		e.note("function never returns normally")
 		return
 	}
+	e.exit, e.exitVals = exit, vals
 	if ct != nil {
 		// a reassigned parameter has different values at entry (call sites see that one) and at return
 		for _, p := range fn.Params {
